@@ -80,8 +80,26 @@ def crc_zero_prefix_tcs(rng, want=6):
     return out
 
 
+def short_flagless_tcs(rng, want=400):
+    """Octet strings that declare 8..12 octets in all (too few for a PUS telecommand), have the secondary-header flag CLEAR,
+    a first data octet that looks like a PUS-C secondary header, a valid CRC over exactly the declared octets, and more
+    octets behind: nothing of this kind is a telecommand."""
+    out = []
+    for _ in range(want):
+        n = rng.randrange(8, 13)
+        apid = rng.randrange(2048)
+        b = [0x10 | (apid >> 8), apid & 0xFF, 0xC0 | rng.randrange(64), rng.randrange(256), 0, n - 7]
+        b += [0x20 | rng.randrange(16)] + [rng.randrange(256) for _ in range(n - 6 - 1 - 2)]
+        x = crc16(b)
+        b += [x >> 8, x & 0xFF]
+        out.append(b + [rng.randrange(256) for _ in range(rng.choice([0, 3, 8, 20]))])
+    return out
+
+
 def events(ctx):
     rng = ctx.rng
+    for b in short_flagless_tcs(rng):
+        yield record("tc.unpack", {"octets": b})
     from ..core import source_constants
     from ..ops_ecss import mk_tc as _mk
     for c in source_constants():
